@@ -124,6 +124,7 @@ func ruleEligibility(c *report.Ctx, which string) {
 
 func runC02(c *report.Ctx) {
 	p := c.P
+	rulePendingMarkForEveryRelevantInput(c)
 	ruleEligibility(c, "all")
 	ruleExplicitInputsDistinct(c)
 	rulePayloadBeforeFeeLoop(c)
